@@ -5,6 +5,26 @@ class CallerFault(Exception):
     """Raised by the caller's own generator (a fault outside iodata)."""
 
 
+import copy
+
+import numpy as np
+
+
+def _update_in_place(shared, frame):
+    import attrs
+
+    for f in attrs.fields(type(frame)):
+        name = f.name.lstrip("_") if f.name in ("_atcorenums", "_charge", "_nelec", "_spinpol") else f.name
+        if name in ("atcorenums", "charge", "nelec", "spinpol"):
+            continue
+        new = getattr(frame, f.name)
+        old = getattr(shared, f.name)
+        if isinstance(new, np.ndarray) and isinstance(old, np.ndarray) and new.shape == old.shape and new.dtype == old.dtype:
+            old[...] = new
+        else:
+            setattr(shared, f.name, copy.deepcopy(new))
+
+
 class TrackedFrames:
     """Iterable handed to dump_many.  kind: 'list' | 'gen' | 'gen_raise'.
 
@@ -22,6 +42,7 @@ class TrackedFrames:
         self.pulled = []
         self.finished = False
         self.closed_early = False
+        self._shared = None
 
     def _gen(self):
         try:
@@ -31,7 +52,20 @@ class TrackedFrames:
                     raise CallerFault(f"caller's generator failed at frame {i}")
                 self.disk.log("pull", self.path, i=i)
                 self.pulled.append(i)
-                yield frame
+                if self.kind == "gen_fresh":
+                    # a new object per frame; nothing else keeps it alive once the writer is done with it
+                    obj = copy.deepcopy(frame)
+                    yield obj
+                    del obj
+                elif self.kind == "gen_reuse":
+                    # one IOData object, updated in place between pulls (legal because dump_many is lazy)
+                    if self._shared is None:
+                        self._shared = copy.deepcopy(frame)
+                    else:
+                        _update_in_place(self._shared, frame)
+                    yield self._shared
+                else:
+                    yield frame
             if self.kind == "gen_raise" and self.raise_at is not None and self.raise_at >= len(self.frames):
                 self.disk.log("pull_raise", self.path, i=len(self.frames))
                 raise CallerFault(f"caller's generator failed at frame {len(self.frames)}")
@@ -62,6 +96,6 @@ def make_iterable(disk, path, frames, kind, raise_at=None):
     tracker = TrackedFrames(disk, path, frames, kind, raise_at)
     if kind == "list":
         return TrackedList(frames).attach(tracker), tracker
-    if kind == "iterobj":
+    if kind in ("iterobj",):
         return tracker, tracker
     return iter(tracker), tracker  # a plain generator object
